@@ -245,11 +245,25 @@ func runC02TSO(ci interface{}, st *CaseStats) error {
 	done := make(chan struct{})
 	go func() { wg.Wait(); close(done) }()
 	var verdict error
-	select {
-	case <-done:
-	case <-time.After(60 * time.Second):
-		// a duplicate deal leaves a hole in the published sequence: the sequencer waits for a revision nobody holds
-		verdict = fmt.Errorf("writers stalled: committed revision +%d, %d deals made — the sequencer waits for a revision nobody was dealt (timed out after 60s)", o.GetRevision()-c.Start, atomic.LoadInt64(&dealt))
+	// a revision dealt twice leaves a hole in the published sequence: the sequencer waits for a revision nobody holds and
+	// every closed-loop writer behind it waits too — no deal at all for a long time, however slow the machine is
+	lastDealt, idle := int64(-1), 0
+wait:
+	for {
+		select {
+		case <-done:
+			break wait
+		case <-time.After(time.Second):
+			if d := atomic.LoadInt64(&dealt); d == lastDealt {
+				idle++
+			} else {
+				lastDealt, idle = d, 0
+			}
+			if idle >= 30 {
+				verdict = fmt.Errorf("writers stalled: committed revision +%d, %d deals made, none for 30s — the sequencer waits for a revision nobody was dealt", o.GetRevision()-c.Start, atomic.LoadInt64(&dealt))
+				break wait
+			}
+		}
 	}
 	atomic.StoreInt32(&stop, 1)
 	<-done
